@@ -22,55 +22,70 @@ Defaults == {NoHop, 2}
 Dsts     == {165, 164, 161, 177, 130, 70}
 
 RouteDom == {[net |-> p[1], plen |-> p[2], hop |-> h, metric |-> m] : p \in Prefixes, h \in Hops, m \in Metrics}
-Tables   == UNION {[1..n -> RouteDom] : n \in 0..MaxRoutes}
 
 VARIABLES table, dflt, dst, choice
 rvars == <<table, dflt, dst, choice>>
 
+NoDst == 999
 Unset == 99
+None  == 98     \* the look-up answers "no route"
 
 Init ==
-    /\ table \in Tables
+    /\ table = <<>>
     /\ dflt \in Defaults
-    /\ dst \in Dsts
+    /\ dst = NoDst
     /\ choice = Unset
 
-\* the look-up: any of the best choices (or "none": 98)
-None == 98
+\* build the table route by route (every sequence of <= MaxRoutes routes is reached exactly once)
+AddRoute(r) ==
+    /\ dst = NoDst
+    /\ Len(table) < MaxRoutes
+    /\ table' = Append(table, r)
+    /\ UNCHANGED <<dflt, dst, choice>>
+
+\* fix the destination that is looked up
+Pick(d) ==
+    /\ dst = NoDst
+    /\ dst' = d
+    /\ UNCHANGED <<table, dflt, choice>>
+
+\* the look-up: any of the best choices, or None
 Lookup ==
+    /\ dst # NoDst
     /\ choice = Unset
     /\ choice' \in (IF BestRoutes(table, dflt, dst) = {} THEN {None} ELSE BestRoutes(table, dflt, dst))
     /\ UNCHANGED <<table, dflt, dst>>
 
-Next == Lookup
+Next == (\E r \in RouteDom : AddRoute(r)) \/ (\E d \in Dsts : Pick(d)) \/ Lookup
 Spec == Init /\ [][Next]_rvars
 
 -----------------------------------------------------------------------------
+Picked == dst # NoDst
 B == BestRoutes(table, dflt, dst)
 M == MatchIdx(table, dst)
 
 \* every chosen table route matches the destination
-BestMatches == \A c \in B : c # Default => Matches(table[c], dst)
+BestMatches == Picked => (\A c \in B : c # Default => Matches(table[c], dst))
 \* no matching route has a longer prefix than a chosen one
-NoLongerPrefix == \A c \in B : c # Default => \A j \in M : table[j].plen <= table[c].plen
+NoLongerPrefix == Picked => (\A c \in B : c # Default => \A j \in M : table[j].plen <= table[c].plen)
 \* no matching route of the same prefix length has a lower metric
-NoLowerMetric == \A c \in B : c # Default =>
-                     \A j \in M : table[j].plen = table[c].plen => table[j].metric >= table[c].metric
+NoLowerMetric == Picked => (\A c \in B : c # Default =>
+                     \A j \in M : table[j].plen = table[c].plen => table[j].metric >= table[c].metric)
 \* the default route is chosen exactly when there is one and no table route matches
-DefaultLastResort == (Default \in B) <=> (M = {} /\ dflt # NoHop)
-DefaultAlone == Default \in B => B = {Default}
+DefaultLastResort == Picked => ((Default \in B) <=> (M = {} /\ dflt # NoHop))
+DefaultAlone == Picked => (Default \in B => B = {Default})
 \* nothing is chosen exactly when nothing matches and there is no default route
-NoneIffNothing == (B = {}) <=> (M = {} /\ dflt = NoHop)
+NoneIffNothing == Picked => ((B = {}) <=> (M = {} /\ dflt = NoHop))
 \* all best routes are tied on (prefix length, metric)
-BestAreTied == \A c, d \in B : (c # Default /\ d # Default) =>
-                   (table[c].plen = table[d].plen /\ table[c].metric = table[d].metric)
+BestAreTied == Picked => (\A c, d \in B : (c # Default /\ d # Default) =>
+                   (table[c].plen = table[d].plen /\ table[c].metric = table[d].metric))
 \* a scan in table order (first best wins) returns one of the declarative best routes
-ScanAgrees == IF M = {} THEN ScanBest(table, dst) = 0 ELSE ScanBest(table, dst) \in BestIdx(table, dst)
+ScanAgrees == Picked => (IF M = {} THEN ScanBest(table, dst) = 0 ELSE ScanBest(table, dst) \in BestIdx(table, dst))
 \* ChoiceOK accepts exactly the members of BestRoutes
-ChoiceOKExact ==
-    /\ \A c \in 1..Len(table) : ChoiceOK(table, dflt, dst, c, FALSE) <=> c \in BestIdx(table, dst)
-    /\ ChoiceOK(table, dflt, dst, 0, TRUE) <=> (Default \in B)
-    /\ ChoiceOK(table, dflt, dst, 0, FALSE) <=> (B = {})
+ChoiceOKExact == Picked =>
+    (/\ \A c \in 1..Len(table) : ChoiceOK(table, dflt, dst, c, FALSE) <=> c \in BestIdx(table, dst)
+     /\ ChoiceOK(table, dflt, dst, 0, TRUE) <=> (Default \in B)
+     /\ ChoiceOK(table, dflt, dst, 0, FALSE) <=> (B = {}))
 \* prefix arithmetic: the blocks nest as intended
 ASSUME /\ InNet(165, 164, 6) /\ InNet(167, 164, 6) /\ ~InNet(168, 164, 6)
        /\ InNet(175, 160, 4) /\ InNet(160, 167, 4) /\ ~InNet(176, 167, 4)
